@@ -157,7 +157,7 @@ func ruleEqualEntry(ctx *Ctx, rule string) {
 		return
 	}
 	type retInfo struct {
-		val            string
+		val             string
 		named, resolved map[string]bool
 	}
 	var rets []retInfo
